@@ -385,18 +385,37 @@ func (ld *Loaded) nouseScan(fd *FieldDecl) *FuncResult {
 					}
 				}
 				back(call.Call.Args[argi], 0)
-				// every load of such a variable that the call dominates yields the same buffer
-				for _, b2 := range fn.Blocks {
-					for j, in2 := range b2.Instrs {
-						if u, ok := in2.(*ssa.UnOp); ok {
-							if a, ok := u.X.(*ssa.Alloc); ok && cells[a] {
-								if (b2 == b && j > i) || (b2 != b && b.Dominates(b2)) {
-									alias[u] = true
+				// every load of such a variable that is REACHABLE from the call before the variable
+				// receives a different buffer yields the same buffer (reachability, not dominance:
+				// a use after the join of the branch that made the call counts)
+				reach := map[ssa.Instruction]bool{}
+				seenB := map[*ssa.BasicBlock]bool{}
+				var walk func(bb *ssa.BasicBlock, from int)
+				walk = func(bb *ssa.BasicBlock, from int) {
+					for j := from; j < len(bb.Instrs); j++ {
+						in2 := bb.Instrs[j]
+						reach[in2] = true
+						if st, ok := in2.(*ssa.Store); ok {
+							if a, ok := st.Addr.(*ssa.Alloc); ok && cells[a] && !alias[st.Val] {
+								if _, fromAlias := st.Val.(*ssa.Slice); !fromAlias {
+									return // the variable holds another buffer from here on (on this path)
 								}
 							}
 						}
+						if u, ok := in2.(*ssa.UnOp); ok {
+							if a, ok := u.X.(*ssa.Alloc); ok && cells[a] {
+								alias[u] = true
+							}
+						}
+					}
+					for _, sc := range bb.Succs {
+						if !seenB[sc] {
+							seenB[sc] = true
+							walk(sc, 0)
+						}
 					}
 				}
+				walk(b, i+1)
 				changed := true
 				for changed {
 					changed = false
@@ -414,8 +433,8 @@ func (ld *Loaded) nouseScan(fd *FieldDecl) *FuncResult {
 						if in2 == in {
 							continue
 						}
-						dominated := (b2 == b && j > i) || (b2 != b && b.Dominates(b2))
-						if !dominated {
+						_ = j
+						if !reach[in2] {
 							continue
 						}
 						if _, isDbg := in2.(*ssa.DebugRef); isDbg {
